@@ -99,7 +99,7 @@ PROPS = {
     "C09": {
         "level": "proof",
         "claim": "one contract per item, discharged by Verus for the body of every mode and shape (so any two modes satisfy the same specification, which determinacy lemmas show fixes the result); Kani proves on the real resolve, for all configurations, that requested items and explicit modes are kept and every auto resolves to a verified mode legal for the shape; under auto every body is token-identical to an explicit mode's body",
-        "layers": ["TALL", "R", "S", "SI"],
+        "layers": ["TALL", "R", "S", "SI", "IALL"],
         "si_prefix": ["c9_"],
         "explanation": "C09 is a lemma over the contracts of C03-C08: the overlay attaches the same postcondition to every (mode, shape) body of an item (checked mechanically: S/spec-identity), Verus discharges it for each body, and lemma_det_* / lemma_vals_unique prove that two results satisfying it are equal. Layer R (Kani, loop-free, all 2^17 x modes x shapes configurations of the real Features::resolve): nothing requested is dropped, explicit modes are kept, no mode stays Auto, iter Range only on gapless, range never with table_inline. S/auto-body: for the same enum under 11 + seeded feature sets, each generated body under auto equals the body of one explicit mode. Instances c9_* run every such configuration against the same oracle (bounded).",
     },
@@ -148,7 +148,7 @@ PROPS = {
     "C18": {
         "level": "proof",
         "claim": "corollary: every layer-T contract mentions the declaration only through the discriminant set, the name map and the repr, and is proved for each of the 12 reprs; the generator's variant list is a function of the set of (discriminant, ident, name) by the canonical-order lemma; cross-check on the real pipeline: permuted declarations expand token-identically, admissible reprs expand token-identically after renaming the repr",
-        "layers": ["TALL", "G", "S", "SI"],
+        "layers": ["TALL", "G", "S", "SI", "IALL"],
         "si_prefix": ["p_", "q_"],
         "explanation": "The token-identity cross-check is bounded over a corpus (4 discriminant sets x 3 configurations x 4 orders; 4 sets x 10 reprs); the proof part is the union of the layer-T obligations and the G lemma.",
     },
@@ -183,6 +183,11 @@ def collect(pid, tier, seed):
     if "SI" in p["layers"]:
         o, m = driver.collect_I(pid, tier, seed, source="S", props_filter="any", mod_prefix=p.get("si_prefix"))
         m["_layer"] = "I (catalogue instances, native, bounded)"
+        obs += o
+        metas.append(m)
+    if "IALL" in p["layers"]:
+        o, m = driver.collect_I(pid, tier, seed, source="I", props_filter="any")
+        m["_layer"] = "I (instance corpus, every item against the oracle, bounded)"
         obs += o
         metas.append(m)
     if "C11" in p["layers"]:
